@@ -99,7 +99,8 @@ func (c *wsConn) tryDelete(s *Subscription) {
 		for _, ref := range refs {
 			if ref.state == gcStateDelete {
 				for crid := range ref.sub.refs {
-					if cr, ok := refs[crid]; ok && cr.state == gcStateKeep {
+					// (a child that is also directly subscribed is not visited by the traversal)
+					if cr, ok := refs[crid]; !ok || cr.state == gcStateKeep {
 						verifhook.Site("dispose.sent", c.cid, crid)
 					}
 				}
